@@ -14,6 +14,27 @@ def mc_grid(ctx, grid, invariants=None):
         ctx.tlc("DiskQueue", "DiskQueue_mc.cfg", consts=c, timeout=3000, heap="24g")
 
 
+def mc_two_crashes(ctx, grid):
+    """second-generation crashes: the incarnation after the first crash is adopted as the new base
+    (logical content = what the recovery delivers ++ later puts) and crashes again; plus the
+    non-vacuity deviation that only shows with two crashes (strict metadata parser + a metadata
+    temp file left by the first crash and overwritten in place)."""
+    for consts in grid:
+        c = dict(MaxCrashes=2, AllowReopen=False, AllowTick=True, PostPuts=1, Mutant="")
+        c.update(consts)
+        ctx.tlc("DiskQueue", "DiskQueue_mc.cfg", consts=c, timeout=3000, heap="24g")
+    base = dict(MaxFile=3, SyncEvery=3, Sizes={1, 2}, MaxPuts=2, AllowReopen=False, AllowTick=True, PostPuts=1,
+                Mutant="strict_meta_parse")
+    r = ctx.tlc("DiskQueue", "DiskQueue_mc.cfg", consts=dict(base, MaxCrashes=2), expect_ok=False, count=False)
+    if r["violated"] not in ("C08", "C08Run"):
+        raise Machinery("deviation strict_meta_parse is not rejected with two crashes (vacuity); log %s" % r["log"])
+    # ... and it needs the second crash: with a single crash the deviation is invisible
+    r = ctx.tlc("DiskQueue", "DiskQueue_mc.cfg", consts=dict(base, MaxCrashes=1), expect_ok=False, count=False)
+    if not r["ok"]:
+        raise Machinery("deviation strict_meta_parse is rejected with a single crash already: the model of the "
+                        "left-over temp file changed; log %s" % r["log"])
+
+
 def mc_nonvacuity(ctx):
     """the contract invariants are not vacuous: named deviations violate them"""
     base = dict(MaxFile=3, SyncEvery=3, Sizes={1, 2}, MaxPuts=3, MaxCrashes=1, AllowReopen=False,
@@ -76,11 +97,12 @@ def random_history(rng, k, nops, crash, unit_scaled, pool=UNIT_SETTINGS):
                 ops=ops)
 
 
-def run_driver(ctx, histories, name, levelb=True, timeout=3000):
+def run_driver(ctx, histories, name, levelb=True, timeout=3000, gen2_permille=0):
     hf = ctx.write_ndjson(name + "_hist.ndjson", histories)
     tf = os.path.join(ctx.out, name + "_trace.ndjson")
     res = ctx.go_test("dq", run="^TestDQ$", timeout=timeout, expect_ok=False,
-                      env=dict(VERIF_DQ_HIST=hf, VERIF_DQ_TRACE=tf, VERIF_DQ_LEVELB="1" if levelb else "0"))
+                      env=dict(VERIF_DQ_HIST=hf, VERIF_DQ_TRACE=tf, VERIF_DQ_LEVELB="1" if levelb else "0",
+                               VERIF_DQ_GEN2_PERMILLE=gen2_permille))
     crashed = None
     if res["rc"] != 0:
         # the real queue panicked (or the driver died): find what it was doing
@@ -106,16 +128,25 @@ def run_driver(ctx, histories, name, levelb=True, timeout=3000):
 def level_a(events):
     """projection of the recorded events to the level-A alphabet"""
     out = []
+    gen2 = False
     for e in events:
         ev = e["ev"]
         if ev == "hist":
+            gen2 = False
             out.append(dict(ev="hist", h=e["h"]))
+        elif ev == "gen2":
+            # second generation on a crash snapshot of history h: ids are positions in L = X ++ new puts
+            gen2 = True
+            out.append(dict(ev="gen2", h=e["h"], g=e["g"], x=e["x"], xs=e["xs"], label=e["label"]))
         elif ev == "hook":
             lab = e["label"]
             if lab == "w_write":
                 out.append(dict(ev="put", id=e["id"]))
             elif lab == "take":
-                out.append(dict(ev="take", id=e["id"]))
+                if gen2:
+                    out.append(dict(ev="take2", id=e["id"], abs=e["abs"]))
+                else:
+                    out.append(dict(ev="take", id=e["id"]))
             elif lab == "m_rename":
                 out.append(dict(ev="sync"))
         elif ev == "depth":
@@ -125,6 +156,8 @@ def level_a(events):
                 continue
             out.append(dict(ev="rec", label=e["label"], D=e["D"], sentinel=e["sentinel"], hang=e["hang"],
                             extra=e["extra"]))
+            if gen2:
+                out[-1]["Dabs"] = e["Dabs"]
         elif ev in ("hang", "puterr"):
             out.append(dict(ev="bad", what=ev, detail=e))
     return out
@@ -133,7 +166,7 @@ def level_a(events):
 def split_histories(recs):
     blocks, cur = [], None
     for r in recs:
-        if r["ev"] == "hist":
+        if r["ev"] in ("hist", "gen2"):
             cur = [r]
             blocks.append(cur)
         elif cur is not None:
@@ -166,7 +199,11 @@ def validate_level_a(ctx, events, strict08, strict09, on_reject, max_rounds=25):
             if matched < pos + len(b):
                 on_reject(b, matched - pos)
                 rejected += 1
-                del blocks[bi]
+                # every block starts with a reset event: the blocks before the offending one were
+                # matched completely and need not be validated again
+                ctx.cov["traces_validated_against_impl"] += bi
+                ctx.cov["trace_events"] = ctx.cov.get("trace_events", 0) + pos
+                del blocks[:bi + 1]
                 break
             pos += len(b)
         else:
@@ -188,6 +225,9 @@ def level_b(events, hists):
     prev_hist = False
     for e in events:
         ev = e["ev"]
+        if ev == "gen2":        # second-generation runs are judged at level A only
+            keep = False
+            continue
         if ev == "hist":
             h = hists[e["h"]]
             keep = h.get("unit") == UNIT and all((o["len"] + 4) % UNIT == 0 for o in h["ops"] if o["op"] == "put") \
@@ -212,8 +252,8 @@ def level_b(events, hists):
                 return [], 0, set()
             st = e["st"]
             fs = e["fs"]
-            def pos(m):
-                return [m[0], m[1], m[2] // UNIT, m[3], m[4] // UNIT]
+            def pos(m):     # m[5]: bytes behind the metadata text (stale tail), not scaled
+                return [m[0], m[1], m[2] // UNIT, m[3], m[4] // UNIT, m[5]]
             f2 = dict(segs={k: [list(c) for c in v["cells"]] for k, v in fs["segs"].items()})
             if fs.get("meta"):
                 f2["meta"] = pos(fs["meta"])
